@@ -5,6 +5,7 @@
 package main
 
 import (
+	"bytes"
 	"fmt"
 	"os"
 	"sort"
@@ -23,6 +24,16 @@ type Op struct {
 	MT     int      `json:"mt,omitempty"`
 	ID     uint64   `json:"id,omitempty"`
 	Seq    int      `json:"seq,omitempty"`
+	Slow   bool     `json:"slow,omitempty"` // join with a 4 KiB receive buffer (a reader that will lag)
+	Fill   int      `json:"fill,omitempty"` // send: bytes of filler derived from (id, sender, seq) after the header
+	NB     bool     `json:"nb,omitempty"`   // send: no waiting afterwards (burst)
+}
+
+func (o Op) payload() []byte {
+	if o.Fill > 0 {
+		return hubkit.PayloadFill(o.ID, o.N, o.Seq, o.TT, o.Fill)
+	}
+	return hubkit.Payload(o.ID, o.N, o.Seq, o.TT)
 }
 
 type Seen struct {
@@ -36,8 +47,10 @@ type Seen struct {
 }
 
 type Case struct {
-	Ops  []Op   `json:"ops"`
-	Seen []Seen `json:"seen"`
+	Ops     []Op   `json:"ops"`
+	Seen    []Seen `json:"seen"`
+	Kind    string `json:"kind,omitempty"`
+	Discard string `json:"discard,omitempty"`
 }
 
 const bufferSize = 128
@@ -60,11 +73,13 @@ func (o Op) coq() string {
 	case "leave":
 		return lib.App("OLeave", lib.N(o.N))
 	}
-	data := hubkit.Payload(o.ID, o.N, o.Seq, o.TT)
-	return lib.App("OSend", lib.N(o.N), lib.N(uint64(o.MT)), lib.N(uint64(len(data))), "["+lib.N(o.ID)+"]")
+	return lib.App("OSend", lib.N(o.N), lib.N(uint64(o.MT)), lib.N(uint64(len(hubkit.PayloadFill(o.ID, o.N, o.Seq, o.TT, 0))+o.Fill)), "["+lib.N(o.ID)+"]")
 }
 
 func (c Case) coq() string {
+	if c.Discard != "" {
+		return "([], [])" // kept only so that case numbers stay aligned
+	}
 	noCode := map[uint64]bool{}
 	for _, s := range c.Seen {
 		if s.Refused == "session" {
@@ -75,7 +90,7 @@ func (c Case) coq() string {
 	// reach the access API (issue, noise) are not hub events
 	ops := []string{}
 	for _, o := range c.Ops {
-		if !noCode[o.N] && o.K != "issue" && o.K != "noise" {
+		if !noCode[o.N] && (o.K == "join" || o.K == "connect" || o.K == "leave" || o.K == "send") {
 			ops = append(ops, o.coq())
 		}
 	}
@@ -282,20 +297,137 @@ func doNoise(k *hubkit.Kit, o Op, res *lib.Result) {
 	}
 }
 
-func digest(f *hubkit.Frame) {
-	tags, junk := hubkit.ParseTags(f.Data)
-	if junk > 0 {
-		tags = append(tags, hubkit.Tag{ID: 0})
+type needle struct {
+	id, sender uint64
+	pat        []byte
+}
+
+type finfo struct {
+	tags  []hubkit.Tag
+	alien []needle // byte patterns of payloads sent by connections without write scope found in this frame
+}
+
+// needlesOf lists recognisable byte patterns of everything the script lets a connection WITHOUT the
+// write scope (by its own token) send: the start of its header and stretches of its filler.
+func needlesOf(c *Case) []needle {
+	scopes := map[uint64][]string{}
+	var ns []needle
+	for _, o := range c.Ops {
+		switch o.K {
+		case "join", "issue":
+			scopes[o.N] = o.Scopes
+		case "send":
+			if has(scopes[o.N], "write") {
+				continue
+			}
+			pl := o.payload()
+			hdr := fmt.Sprintf("<#%d,%d,", o.ID, o.N)
+			if o.Fill == 0 {
+				hdr = fmt.Sprintf("<%d,%d,", o.ID, o.N)
+			}
+			ns = append(ns, needle{o.ID, o.N, []byte(hdr)})
+			body := pl[len(pl)-o.Fill:]
+			for off := 0; off+24 <= len(body) && off < 2048; off += 509 {
+				ns = append(ns, needle{o.ID, o.N, body[off : off+24]})
+			}
+		}
 	}
-	f.Info = tags
+	return ns
+}
+
+func newDigest(ns []needle) func(*hubkit.Frame) {
+	return func(f *hubkit.Frame) {
+		tags, junk := hubkit.ParseTags(f.Data)
+		if junk > 0 {
+			tags = append(tags, hubkit.Tag{ID: 0})
+		}
+		fi := finfo{tags: tags}
+		// a frame that is, byte for byte, a sequence of well-formed payloads with their own fillers has no
+		// room for anything else (its senders are judged by the headers); any other frame is searched
+		dirty := junk > 0
+		for _, t := range tags {
+			dirty = dirty || t.BadFill
+		}
+		for _, n := range ns {
+			if dirty && bytes.Contains(f.Data, n.pat) {
+				fi.alien = append(fi.alien, n)
+			}
+		}
+		f.Info = fi
+		f.Data = nil
+	}
 }
 
 func tagsOf(p *hubkit.Peer) []hubkit.Tag {
 	var out []hubkit.Tag
 	for _, f := range p.Frames() {
-		out = append(out, f.Info.([]hubkit.Tag)...)
+		out = append(out, f.Info.(finfo).tags...)
 	}
 	return out
+}
+
+// genLag: a read-only reader lags (4 KiB receive buffer, stops reading; large frames from a writer
+// block the relay's writer for it) while connections WITHOUT the write scope - a plain reader and
+// one whose scopes only look like write - send recognisable frames, between and during the
+// writer's burst. Nothing of what they send may turn up anywhere, in headers or in content.
+func genLag(r *lib.Rng) []Op {
+	tt := []string{"t4", "t4/x", "s"}[r.Intn(3)]
+	var ops []Op
+	join := func(topic string, scopes []string, slow bool) uint64 {
+		nextName++
+		ops = append(ops, Op{K: "join", N: nextName, TT: topic, Scopes: scopes, Slow: slow})
+		return nextName
+	}
+	seq := 0
+	send := func(n uint64, topic string, fill int, nb bool) {
+		seq++
+		nextID++
+		ops = append(ops, Op{K: "send", N: n, TT: topic, MT: 1 + r.Intn(2), ID: nextID, Seq: seq, Fill: fill, NB: nb})
+	}
+	type snd struct {
+		n  uint64
+		tt string
+	}
+	lag := join(tt, []string{"read"}, true)
+	w := join(tt, [][]string{{"write"}, {"write", "read"}, {"host", "write"}}[r.Intn(3)], false)
+	mute := []snd{{join(tt, []string{"read"}, false), tt},
+		{join(tt, [][]string{{"read", "Write", "write "}, {"Write", "read", "readwrite"}, {"read", " write", "WRITE"}}[r.Intn(3)], false), tt}}
+	if r.Bool() {
+		other := tt + "2"
+		mute = append(mute, snd{join(other, []string{"read", "Write"}, false), other})
+		join(other, []string{"read", "write"}, false)
+	}
+	if r.Bool() {
+		join(tt, []string{"read"}, false) // a reader that keeps up
+	}
+	send(w, tt, r.Range(1, 300), false)
+	m := mute[r.Intn(len(mute))]
+	send(m.n, m.tt, r.Range(30, 300), false)
+	for round := r.Range(1, 2); round > 0; round-- {
+		ops = append(ops, Op{K: "stall", N: lag})
+		for k := r.Range(9, 11); k > 0; k-- {
+			send(w, tt, 1<<20, false)
+			if r.Chance(1, 3) {
+				m := mute[r.Intn(len(mute))]
+				send(m.n, m.tt, []int{100, 3000, 70000, 1 << 20}[r.Intn(4)], true)
+			}
+		}
+		for k := r.Range(20, 40); k > 0; k-- {
+			if r.Chance(2, 5) {
+				m := mute[r.Intn(len(mute))]
+				send(m.n, m.tt, r.Range(40, 3000), true)
+			} else {
+				send(w, tt, r.Range(40, 3000), true)
+			}
+		}
+		ops = append(ops, Op{K: "unstall", N: lag}, Op{K: "barrier", N: w})
+		for _, m := range mute {
+			ops = append(ops, Op{K: "barrier", N: m.n})
+		}
+		ops = append(ops, Op{K: "sync"})
+	}
+	send(w, tt, 0, false)
+	return ops
 }
 
 func runCase(k *hubkit.Kit, c *Case, res *lib.Result) []*hubkit.Peer {
@@ -303,6 +435,23 @@ func runCase(k *hubkit.Kit, c *Case, res *lib.Result) []*hubkit.Peer {
 	var order []*hubkit.Peer
 	expected := map[uint64]int{}
 	flags := map[uint64]hubkit.Report{}
+	digest := newDigest(needlesOf(c))
+	stalled := map[uint64]bool{}
+	waitAll := func() {
+		for _, q := range order {
+			if stalled[q.Name] || q.Refused != "" || q.Conn == nil {
+				continue
+			}
+			if ended, _, _ := q.Ended(); ended {
+				continue
+			}
+			want, qq := expected[q.Name], q
+			if !hubkit.WaitFor(k.Slack, func() bool { return len(tagsOf(qq)) >= want }) {
+				res.Count("send:delivery-wait-expired")
+				expected[q.Name] = len(tagsOf(qq))
+			}
+		}
+	}
 	for _, o := range c.Ops {
 		switch o.K {
 		case "noise":
@@ -314,7 +463,11 @@ func runCase(k *hubkit.Kit, c *Case, res *lib.Result) []*hubkit.Peer {
 		case "join", "connect":
 			var p *hubkit.Peer
 			if o.K == "join" {
-				p = k.Join(o.N, o.TT, "/session/"+o.TT, o.Scopes, digest)
+				buf := 0
+				if o.Slow {
+					buf = 4096
+				}
+				p = k.JoinBuf(o.N, o.TT, "/session/"+o.TT, o.Scopes, digest, buf)
 				peers[o.N] = p
 				order = append(order, p)
 			} else {
@@ -340,9 +493,12 @@ func runCase(k *hubkit.Kit, c *Case, res *lib.Result) []*hubkit.Peer {
 				res.Count("send:skipped-refused-sender")
 				continue
 			}
-			_, acked := k.Send(p, o.MT, hubkit.Payload(o.ID, o.N, o.Seq, o.TT), true)
-			if !acked {
+			_, acked := k.Send(p, o.MT, o.payload(), !o.NB)
+			if !acked && !o.NB {
 				res.Count("send:no-ack")
+			}
+			if o.NB {
+				res.Count("send:burst")
 			}
 			if !has(p.Scopes, "write") {
 				res.Count("send:by-non-writer")
@@ -351,18 +507,27 @@ func runCase(k *hubkit.Kit, c *Case, res *lib.Result) []*hubkit.Peer {
 			res.Count("send:by-writer")
 			// waiting hint only (never compared)
 			for _, q := range order {
-				if q != p && q.Refused == "" && q.TokenTopic == p.TokenTopic && has(q.Scopes, "read") {
+				if q != p && q.Refused == "" && q.Conn != nil && q.TokenTopic == p.TokenTopic && has(q.Scopes, "read") {
 					if ended, _, _ := q.Ended(); !ended {
 						expected[q.Name]++
-						want := expected[q.Name]
-						qq := q
-						if !hubkit.WaitFor(k.Slack, func() bool { return len(tagsOf(qq)) >= want }) {
-							res.Count("send:delivery-wait-expired")
-							expected[q.Name] = len(tagsOf(qq))
-						}
 					}
 				}
 			}
+			if !o.NB {
+				waitAll()
+			}
+		case "stall":
+			peers[o.N].Stall(true)
+			stalled[o.N] = true
+		case "unstall":
+			peers[o.N].Stall(false)
+			stalled[o.N] = false
+		case "barrier":
+			if p := peers[o.N]; p != nil && p.Refused == "" && !k.Barrier(p) {
+				res.Count("barrier:no-pong")
+			}
+		case "sync":
+			waitAll()
 		}
 	}
 	time.Sleep(25 * time.Millisecond) // anything delivered where it should not be
@@ -377,6 +542,9 @@ func runCase(k *hubkit.Kit, c *Case, res *lib.Result) []*hubkit.Peer {
 		}
 		sort.Slice(s.IDs, func(i, j int) bool { return s.IDs[i] < s.IDs[j] })
 		c.Seen = append(c.Seen, s)
+		if ended, byServer, _ := p.Ended(); ended && byServer && c.Kind == "lag" {
+			c.Discard = "lagging-reader-cut" // its backlog outgrew the buffer: what it got depends on the hub order
+		}
 	}
 	return order
 }
@@ -411,6 +579,13 @@ func oracle(c Case, idx int, peers []*hubkit.Peer, res *lib.Result) {
 			res.Violate(lib.Violation{Clause: "nonreader-received", Case: idx, Key: "nonreader-received",
 				Detail: fmt.Sprintf("connection %d with scopes %s received %d frames", p.Name, scopeKey(p.Scopes), p.NFrames()), Replay: c})
 		}
+		for fi, f := range p.Frames() {
+			for _, n := range f.Info.(finfo).alien {
+				res.Violate(lib.Violation{Clause: "nonwriter-content-heard", Case: idx, Key: "nonwriter-content-heard",
+					Detail: fmt.Sprintf("frame %d received by connection %d (scopes %s) contains bytes of message id %d sent by connection %d, whose token (scopes %s) has no write scope", fi, p.Name, scopeKey(p.Scopes), n.id, n.sender, scopeKey(byName[n.sender].Scopes)), Replay: c})
+				break
+			}
+		}
 		for _, t := range tagsOf(p) {
 			if snd := byName[t.Sender]; t.ID != 0 && snd != nil && !has(snd.Scopes, "write") {
 				res.Violate(lib.Violation{Clause: "nonwriter-heard", Case: idx, Key: "nonwriter-heard",
@@ -443,6 +618,9 @@ func main() {
 				cases = append(cases, Case{Ops: genDeferred(rng.Fork(), (off+(i/2)*mul)%256)})
 			}
 		}
+		for i, m := 0, a.Pick(30, 240); i < m; i++ {
+			cases = append(cases, Case{Ops: genLag(rng.Fork()), Kind: "lag"})
+		}
 	}
 	coq := make([]string, len(cases))
 	for i := range cases {
@@ -455,6 +633,12 @@ func main() {
 		c := cases[i]
 		coq[i] = c.coq()
 		res.CountN("ops", len(c.Ops))
+		if c.Kind == "lag" {
+			res.Count("kind:lag")
+		}
+		if c.Discard != "" {
+			res.Count("discarded:" + c.Discard)
+		}
 		for _, s := range c.Seen {
 			res.CountN("payloads-received", len(s.IDs))
 			res.Count(fmt.Sprintf("caps:read=%v,write=%v", has(s.Scopes, "read"), has(s.Scopes, "write")))
